@@ -36,6 +36,19 @@ def expected_ops(design):
                 out.append((h["verb"], (design.get("path") or "") + (s.get("path") or "") + path, s, m))
             for verb, path in h.get("more_routes") or []:
                 out.append((verb, (design.get("path") or "") + (s.get("path") or "") + path, s, m))
+        for f in s.get("files") or []:
+            out.append(("GET", (design.get("path") or "") + (s.get("path") or "") + f[0], s, None))
+    return out
+
+
+def file_roots(design):
+    """a file server on `/dir/{*path}` is also mounted on `/dir/` (the directory itself)"""
+    out = set()
+    for s in design["services"]:
+        for f in s.get("files") or []:
+            m = re.match(r"^(.*/)\{\*\w+\}$", f[0])
+            if m:
+                out.add(("GET", (design.get("path") or "") + (s.get("path") or "") + m.group(1)))
     return out
 
 
@@ -66,7 +79,10 @@ def has_body(m):
     locs = e2e.locations_of(m)
     creds = set((m.get("creds") or {}).keys())
     payload = m.get("payload") or {}
-    names = [f["name"] for f in (payload.get("type", {}).get("object") or [])]
+    t = payload.get("type") or {}
+    if payload and not t.get("is_object") and not t.get("object") and not t.get("ref"):
+        return True  # a payload that is not an object (a primitive, Any, an array, a map) is the body itself
+    names = [f["name"] for f in (t.get("object") or [])]
     return any(locs.get(n, "body") == "body" and n not in creds for n in names)
 
 
@@ -103,7 +119,7 @@ def run(c):
         "the extra OpenAPI 2.0 rules checked by harness/cmd/rtopenapi (path parameters required and present in the template, one body parameter, "
         "unique operationId, non-empty responses); gopkg.in/yaml.v3 for the YAML renderings",
         "expected parameters/body/response codes/security are derived from the design IR by vlib/c07.py (credentials are expected as security schemes, "
-        "cookies only in the 3.0 document); file servers, multiple routes per endpoint and openapi:* metadata are not generated yet",
+        "cookies only in the 3.0 document); file servers (plain, wildcard, sharing a path with an endpoint of another verb) by index",
     ]
     have = c.go_build("genrun", "rtopenapi")
     lean_ok = False
@@ -117,6 +133,10 @@ def run(c):
     drv = os.path.join(LEAN, ".lake/build/bin/drv_oas")
     work = designs.scratch("C07")
     builds = e2e.build_many(c.seed, range(n), lambda i: FLAGS[i % 5], work)
+    na = 8 if c.tier == "quick" else 16
+    builds += e2e.build_many(c.seed, range(na), lambda i: ["-any-design"], work)
+    c.cov["rule"] += (" Plus %d designs around the type Any (whole payload/result, array element, map value, attribute, query parameter, response "
+                      "header; the odd ones with example generation switched off)." % na)
     total = 0
     for b in builds:
         if b.error:
@@ -133,6 +153,11 @@ def run(c):
             b.cleanup()
             continue
         routes = [tuple(r) for r in obs[0]["routes"]]
+        roots = file_roots(b.design)
+        mounted_roots = [r for r in routes if r in roots]
+        routes = [r for r in routes if r not in roots]
+        for r in sorted(roots):
+            c.hist("file-server", "directory root mounted" if r in mounted_roots else "directory root NOT mounted")
         p = subprocess.run([os.path.join(BIN, "rtopenapi"), "-dir", os.path.join(b.workdir, "out", "gen", "http")], capture_output=True, text=True, env=goenv())
         try:
             rep = json.loads(p.stdout)
@@ -140,7 +165,7 @@ def run(c):
             c.broken.append({"kind": "tie", "name": "rtopenapi failed for design %d" % b.index, "detail": (p.stdout + p.stderr)[-500:]})
             b.cleanup()
             continue
-        inp = {"seed": c.seed, "index": b.index}
+        inp = {"seed": c.seed, "index": b.index, "flags": getattr(b, "flags", None)}
 
         def fail(sig, what, **kw):
             c.fail(sig, "design %d: %s" % (b.index, what), input=inp, design=b.design, **kw)
@@ -181,6 +206,10 @@ def run(c):
                 c.count("%d/v%d/%s %s" % (b.index, ver, o["method"], o["path"]))
             if mv["docOnly"] != "~":
                 fail("openapi%d/operation-not-mounted" % ver, "documented but not mounted: %s" % dec_ops(mv["docOnly"]), expected="same operations", actual=str(routes))
+            for r in mounted_roots:
+                if (r[0], r[1]) not in {(o["method"], o["path"]) for o in ops}:
+                    fail("openapi%d/file-server-directory-root-not-documented" % ver, "the server mounts %s %s (the directory of a file server with a wildcard path), "
+                         "the document does not list it" % r)
             if mv["mountOnly"] != "~":
                 fail("openapi%d/operation-not-documented" % ver, "mounted but not documented: %s" % dec_ops(mv["mountOnly"]), expected="same operations", actual=str([(o["method"], o["path"]) for o in ops]))
             for o, res in zip(ops, out[1:1 + len(pp)]):
@@ -197,6 +226,9 @@ def run(c):
                 if not sm:
                     continue
                 s, m = sm
+                if m is None:
+                    c.hist("file-server", "operation documented")
+                    continue  # a file server: method and path compared above
                 name = "%s.%s" % (s["name"], m["name"])
                 want = expected_params(b.design, s, m, ver)
                 got = {(x["name"], x["in"]): x["required"] for x in o["params"]}
